@@ -188,6 +188,31 @@ def run(ctx):
         ctx.violation("Z4", scan, "yield-after-loop", "Lexer.scan yields outside the scanning loop", node=scan.node)
 
     # ---- Z5 ----------------------------------------------------------------------
+    # ---- Z6 ----------------------------------------------------------------------
+    ctx.rule("Z6", "positions are positions in the caller's text: parse() hands its input to the lexer unchanged (str -> UTF-8 bytes only)")
+    pf = R.parse
+    tparam = pf.params[1] if len(pf.params) > 1 else None
+    scans = [c for c in ast.walk(pf.node) if isinstance(c, ast.Call) and isinstance(c.func, ast.Attribute) and c.func.attr == "scan"]
+    if not scans or tparam is None:
+        raise AnalysisError("Z6", "parse(): lexer.scan call not found")
+    for c in scans:
+        if not (c.args and isinstance(c.args[0], ast.Name) and c.args[0].id == tparam):
+            ctx.violation("Z6", pf, "scan-of-derived-text", "the lexer scans %s, not the text parse() was given" % (norm(c.args[0]) if c.args else "nothing"),
+                          node=c, witness="reported lines / columns refer to a different text than the caller's")
+    bad = []
+    for a in walk_no_nested(pf.node):
+        if isinstance(a, (ast.Assign, ast.AugAssign)) and any(isinstance(t, ast.Name) and t.id == tparam for t in (a.targets if isinstance(a, ast.Assign) else [a.target])):
+            v = a.value
+            enc = isinstance(v, ast.Call) and isinstance(v.func, ast.Attribute) and v.func.attr == "encode" and isinstance(v.func.value, ast.Name) \
+                and v.func.value.id == tparam and isinstance(a, ast.Assign)
+            if not enc:
+                bad.append(a)
+    if bad:
+        ctx.violation("Z6", pf, "input-rewritten", "parse() rewrites its input before scanning it (%s): every position the lexer reports is relative to "
+                      "the rewritten text" % norm(bad[0])[:50], node=bad[0],
+                      witness="a script starting with blank lines reports its errors on too small a line number")
+    else:
+        ctx.holds("Z6", "%s: the input is only encoded (str -> bytes) before it is scanned" % pf.qualname)
     x2(ctx, R, rule="X2")
     # an error is reported at the token that causes it only if the check runs while that token is the current one: the extension gates
     # (E2-E4 of C07) must sit at the lookup / at the tag, not at a later token
